@@ -98,9 +98,18 @@ def run(tier, replay=None):
             e["typed"] = bool(e["meta"] and rnd.random() < 0.5)
             # a custom notification whose params consist of _meta only (no ordinary field)
             e["meta_only"] = bool(e["kind"] == "custom" and e["meta"] and e["size"] == 0 and rnd.random() < 0.5)
+    # the progress VALUES of one call: increasing (the emission's index), all equal, or decreasing - what is sent is what arrives
+    for sc in scs:
+        pm = rnd.choice(["", "", "flat", "down"])
+        for e in sc["emitted"]:
+            if e["kind"] == "progress" and pm:
+                e["pmode"] = pm
     # the server's session flavour is a concretisation too: the answers of a POST are streamed the same way in all three
     for sc in scs:
         sc["srv"] = rnd.choice(["stateful", "stateful", "stateless", "nosession"])
+    # a history of registrations: stand-in handlers see a warm-up call and are then replaced by the real ones (single calls only)
+    for sc in scs:
+        sc["rereg"] = bool(sc["reg"] and sc["emitted"] and rnd.random() < 0.3)
     byid = {s["id"]: s for s in scs}
     strip = lambda s: {k: v for k, v in s.items() if not k.startswith("_")}
     groups = [[strip(s)] for s in scs]
@@ -116,6 +125,7 @@ def run(tier, replay=None):
         for i in range(0, min(len(lst) - 1, 2 * npairs), 2):
             a, b2 = dict(lst[i]), dict(lst[i + 1])
             a["id"], b2["id"] = a["id"] + "x", b2["id"] + "y"
+            a["rereg"] = b2["rereg"] = False
             byid[a["id"]], byid[b2["id"]] = a, b2
             pairs.append([strip(a), strip(b2)])
     allgroups = groups + pairs
